@@ -136,7 +136,7 @@ fn impact_case(text: &str, tts: &[TT]) -> Vec<(String, String)> {
     let n = tts.len();
     let mut out = vec![];
     let parser = AdfParser::default();
-    if parser.parse()(text).is_err() {
+    if !crate::fam::parse_into(&parser, text) {
         return vec![("parse".into(), "well-formed input rejected".into())];
     }
     let r = guard(|| {
@@ -839,7 +839,7 @@ pub fn run_c13(run: &Run) {
         run.add_counts(st.states, st.transitions, st.transitions, 0);
     }
     // impact measures and ADF-level counts
-    let mut srcs = vec![Source::Fam(fam_a(2)), Source::Fam(fam_f(3, 2))];
+    let mut srcs = vec![Source::Fam(fam_a(0)), Source::Fam(fam_a(2)), Source::Fam(fam_f(3, 2))];
     if !run.quick() {
         srcs.push(Source::Fam(fam_s(run.seed)));
     }
